@@ -224,3 +224,7 @@ func init() {
 	ctl("notification loop stops at the first idle connection", "PM-ALL", "processMonitors|loop without early exit", "server", "OvsdbServer", "processMonitors", kStmt, "for _, m := range c.monitors", 0, before("if len(c.monitors) == 0 {\nbreak\n}"))
 	ctl("cond_since always resumes from the last id", "E7", "resume-after-purge", "client", "ovsdbClient", "monitor", kExpr, "reconnecting && len(db.monitors) == 1", 0, to("reconnecting"))
 }
+
+func init() {
+	ctl("mutateInsert returns the value twice", "A3-DISTINCT", "mutateInsert|new value and difference", "updates", "", "mutateInsert", kExpr, "copyValue(value)", 0, to("value"))
+}
